@@ -12,9 +12,14 @@ package main
 //     os.remove, os.remove_all, os.mkdir, os.mkdir_all, os.read_dir, os.rename, os.symlink) and for the methods of VirtualOS called by
 //     the host.  Each access is compared with the Lean model (Risor.C05.findMount) and repeated
 //     with a freshly built host map and a fresh VirtualOS (both re-roll Go's iteration seed): all
-//     repetitions must be served by the same mount.  A share of the tables registers mounts
-//     under a Target that is not spelled like the key (empty, trailing slash): the guard of
-//     finding C05-findmount-target-length; there the model is asked under every visiting order.
+//     repetitions must be served by the same mount.  A quarter of the tables registers mounts
+//     under a Target that is not spelled like the key (empty, trailing slash, mixed).  These were
+//     the cases of finding C05-findmount-target-length (the loop compared len(key) with
+//     len(candidate.Target)); the loop has been repaired in /repo ("fix: choose the longest mount
+//     point in findMount by the length of its key") and they are ordinary cases now: the model
+//     (findMount, key length against key length) gives ONE answer for every visiting order and
+//     every repetition must show it.  A table that is served in two ways again is an unlisted
+//     violation (the replay of the old defect is findings/known/FIXED-C05-findmount-target-length.replay).
 //
 //  I. the hash key of a value is a function of the value: for sets whose members include LONG
 //     byte slices and strings (33-200 bytes, many sharing their first 32-40 bytes, lengths around
@@ -41,8 +46,6 @@ import (
 	"github.com/risor-io/risor/object"
 	ros "github.com/risor-io/risor/os"
 )
-
-const c05_fMountTarget = "C05-findmount-target-length"
 
 // ------------------------------------------------------------------ stream H: findMount
 
@@ -185,7 +188,7 @@ func c05_genMountTable(r *RNG) (ents []c05_mountEnt, spelled string) {
 	// the host registers the mounts in an order of its own
 	perm := c05_randPerm(r, len(keys))
 	spelled = "key"
-	if r.Chance(12) && len(keys) <= 4 {
+	if r.Chance(25) {
 		spelled = Pick(r, []string{"empty", "slash", "mixed"})
 	}
 	for _, i := range perm {
@@ -326,17 +329,20 @@ func c05SiteMounts(e *Env, n, reps int) {
 		if i == 0 { // directed: the smallest nested table, the script-level read
 			ents, spelled, cwd, op, p, q, viaScript = []c05_mountEnt{{"/", "/"}, {"/data", "/data"}}, "key", "/", c05_mountOps[0], "/data/f.txt", "", true
 		}
-		if i == 1 { // directed: Targets left empty (finding C05-findmount-target-length)
+		if i == 1 { // directed: Targets left empty (the witness of the repaired finding C05-findmount-target-length)
 			ents, spelled, cwd, op, p, q, viaScript = []c05_mountEnt{{"/", ""}, {"/data", ""}}, "empty", "/", c05_mountOps[0], "/data/f.txt", "", true
 		}
+		if i == 2 { // directed: "/data" and "/data/" both registered with Target "/data/" (the other spelling of that finding)
+			ents, spelled, cwd, op, p, q, viaScript = []c05_mountEnt{{"/data", "/data/"}, {"/data/", "/data/"}}, "slash", "/", c05_mountOps[0], "/data/f.txt", "", true
+		}
 		var shownEnts, fields []string
-		guard := true // targetsAreKeys
+		ownTargets := true // every mount registered under its own Target (Risor.C05.targetsAreKeys)
 		for _, en := range ents {
 			if en.target == en.key {
 				shownEnts = append(shownEnts, en.key)
 			} else {
 				shownEnts = append(shownEnts, fmt.Sprintf("%s(Target=%q)", en.key, en.target))
-				guard = false
+				ownTargets = false
 			}
 			fields = append(fields, c05_hexField(en.key)+":"+c05_hexField(en.target))
 		}
@@ -366,13 +372,12 @@ func c05SiteMounts(e *Env, n, reps int) {
 		e.R.H("site_mounts_target_spelling", spelled)
 		e.R.H("site_mounts_op", op.name+map[bool]string{true: "/script", false: "/host"}[viaScript])
 
-		// the model: one answer inside the guard (asked under three visiting orders), one per
-		// visiting order outside it
-		ask := func(perm []int, path string) string {
-			return e.O.Ask("C05", "findMount", "impl", c05_permField(perm), c05_hexField(path), strings.Join(fields, ","))
+		// the model: ONE answer, whatever the Targets are (asked under three visiting orders)
+		askMode := func(mode string, perm []int, path string) string {
+			return e.O.Ask("C05", "findMount", mode, c05_permField(perm), c05_hexField(path), strings.Join(fields, ","))
 		}
 		// the answer for one path under one visiting order: "some <pos> <rel>" | "none"
-		one := func(perm []int, path string) string { return strings.Split(ask(perm, path), "\t")[0] }
+		one := func(perm []int, path string) string { return strings.Split(askMode("impl", perm, path), "\t")[0] }
 		// a two-path operation looks both paths up (two separate ranges over the map, so two
 		// independent visiting orders) and forwards only when one mount serves both
 		combine := func(a1, a2 string) string {
@@ -390,31 +395,20 @@ func c05SiteMounts(e *Env, n, reps int) {
 			return combine(one(perm, kp), one(perm2, kq))
 		}
 		allowed := map[string]bool{}
-		if guard {
-			w := expect(nil, nil)
-			allowed[w] = true
-			for t := 0; t < 2; t++ {
-				if w2 := expect(c05_randPerm(r, len(ents)), c05_randPerm(r, len(ents))); w2 != w {
-					e.R.Mismatch(caseKey, w2, w, "model: findMount under two visiting orders")
-				}
+		w := expect(nil, nil)
+		allowed[w] = true
+		for t := 0; t < 2; t++ {
+			if w2 := expect(c05_randPerm(r, len(ents)), c05_randPerm(r, len(ents))); w2 != w {
+				e.R.Mismatch(caseKey, w2, w, "model: findMount under two visiting orders")
 			}
-		} else {
-			a1, a2 := map[string]bool{}, map[string]bool{}
+		}
+		if !ownTargets && len(ents) <= 4 { // small tables: the model under EVERY visiting order
 			for _, pm := range c05_permsOf(len(ents)) {
-				a1[one(pm, kp)] = true
-				if op.two {
-					a2[one(pm, kq)] = true
+				if w2 := expect(pm, pm); w2 != w {
+					e.R.Mismatch(caseKey, w2, w, "model: findMount under every visiting order of a table with Targets unlike the keys")
+					break
 				}
 			}
-			for x := range a1 {
-				if !op.two {
-					allowed[x] = true
-				}
-				for y := range a2 {
-					allowed[combine(x, y)] = true
-				}
-			}
-			e.R.H("site_mounts_model_answers_outside_guard", strconv.Itoa(len(allowed)))
 		}
 		seen := map[string]c05_mountObs{}
 		agree := true
@@ -434,12 +428,24 @@ func c05SiteMounts(e *Env, n, reps int) {
 				texts = append(texts, o.shown+" → "+o.out)
 			}
 			sort.Strings(texts)
-			finding := ""
-			if !guard && agree {
-				finding = c05_fMountTarget
+			// never attributed to a known finding: finding C05-findmount-target-length is FIXED.  When
+			// every observation is an answer of the loop as it was before the repair, say so.
+			note := ""
+			if !ownTargets && len(ents) <= 4 && !op.two {
+				old := map[string]bool{}
+				for _, pm := range c05_permsOf(len(ents)) {
+					old[strings.Split(askMode("prefix", pm, kp), "\t")[0]] = true
+				}
+				recurs := len(old) > 1
+				for _, o := range seen {
+					recurs = recurs && old[o.served]
+				}
+				if recurs {
+					note = "; every observation is an answer of the loop as it was BEFORE its repair (Risor.C05.preFixFindMount: len(key) compared with len(candidate.Target)) — the repair of C05-findmount-target-length (recorded as fixed) is missing from this tree"
+				}
 			}
-			e.R.Spec(caseKey, fmt.Sprintf("the same access was served in %d different ways in %d evaluations (fresh mount map and fresh VirtualOS each time): %s",
-				len(seen), reps, strings.Join(texts[:min(3, len(texts))], " | ")), finding)
+			e.R.Spec(caseKey, fmt.Sprintf("the same access was served in %d different ways in %d evaluations (fresh mount map and fresh VirtualOS each time): %s%s",
+				len(seen), reps, strings.Join(texts[:min(3, len(texts))], " | "), note), "")
 		}
 	}
 }
